@@ -48,6 +48,7 @@ EvMatches(se, le) ==
                  [] se.n \in {"OnEstablished", "OnClose"} -> se.k = le.k
                  [] OTHER -> TRUE
        [] se.e = "dial" -> se.p = le.p /\ se.k = le.k
+       [] se.e = "cbx" -> se.p = le.p /\ se.n = le.n /\ se.k = le.k
        [] se.e = "ret" ->
             /\ se.p = le.p /\ se.n = le.n /\ se.k = le.k
             /\ IF se.n = "listPeers"
@@ -133,6 +134,9 @@ TraceStim ==
        [] s.op = "rclose" -> EnvRClose(s.conn) /\ UNCHANGED target
        [] s.op = "rreset" -> EnvReset(s.conn) /\ UNCHANGED target
        [] s.op = "lisFail" -> EnvLisFail /\ UNCHANGED target
+       [] s.op = "lisGate" -> EnvLisGate(TRUE) /\ UNCHANGED target
+       [] s.op = "lisRelease" -> EnvLisGate(FALSE) /\ UNCHANGED target
+       [] s.op = "yield" -> UNCHANGED <<vars, target>>
        [] s.op = "release" -> EnvRelease(s.peer, [n |-> s.call, k |-> s.w]) /\ UNCHANGED target
        [] s.op = "advance" -> target' = now + s.d /\ UNCHANGED vars
        [] s.op = "nop" -> UNCHANGED <<vars, target>>
